@@ -85,6 +85,8 @@ func shape(id, i int) dns.RR {
 		return mustRR(fmt.Sprintf("unrelated%d.test. 300 IN TXT \"%s\"", i, filler[:250]))
 	case 5:
 		return mustRR("example.org. 300 IN MX 10 mail.some-other-long-domain-name.example.net.")
+	case 6:
+		return mustRR(fmt.Sprintf("big%d.example.org. 300 IN TXT \"%s\" \"%s\" \"%s\"", i, filler[:200], filler[:200], filler[:200]))
 	}
 	hx.Die("shape %d", id)
 	return nil
